@@ -8,6 +8,7 @@ import (
 	"sort"
 	"strconv"
 	"strings"
+	"unicode"
 
 	"evylang.dev/evy/pkg/lexer"
 	"evylang.dev/evy/pkg/parser"
@@ -458,7 +459,22 @@ func multilineLiterals(rng *rand.Rand, line string, p float64) string {
 				next = rs[i+1]
 			}
 			if r == '[' && next == ']' || r == '{' && next == '}' {
-				isLit = false // type or empty literal: nothing to break
+				// `[]` / `{}` is a type prefix (x:[]num, []{}num) or an empty literal; an empty literal may
+				// hold newlines and comments between its brackets like any other literal
+				after := rune(0)
+				if i+2 < len(rs) {
+					after = rs[i+2]
+				}
+				isType := prev == ':' || unicode.IsLetter(after) || after == '[' || after == '{' || after == '_'
+				if isLit && !isType && rng.Float64() < p {
+					b.WriteRune(r)
+					b.WriteString(sepText())
+					b.WriteRune(next)
+					i++
+					prev = next
+					continue
+				}
+				isLit = false
 			}
 			chosen := isLit && rng.Float64() < p
 			stack = append(stack, frame{open: r, literal: chosen})
